@@ -577,6 +577,12 @@ func checkServerClosures(p *core.Program, r *core.Report, u flow.FuncUnit, start
 			if fn, ok := flow.Callee(info, c).(*types.Func); ok {
 				switch fn.FullName() {
 				case "(*net/http.Server).ListenAndServe", "(*net/http.Server).Serve", "(*net/http.Server).ListenAndServeTLS", "(*net/http.Server).ServeTLS":
+					if fn.Name() == "Serve" || fn.Name() == "ServeTLS" {
+						// a listener bound before the serve loop registers it: a stop that is processed before Serve
+						// runs finds nothing to close, Shutdown returns at once and AwaitStop returns with the address
+						// still bound (ListenAndServe checks for shutdown *before* binding)
+						r.Violation("O14.1", u.Name+": the serve call binds its own listener", p.Pos(c.Pos()), "the start closure serves on a listener created elsewhere (%s): when the stop is handled before the serve loop has registered that listener, Shutdown has nothing to close and waiting-for-stop returns while the address is still bound", fn.Name())
+					}
 					if sel, ok := ast.Unparen(c.Fun).(*ast.SelectorExpr); ok {
 						served = identVar(info, sel.X)
 					}
@@ -1036,6 +1042,41 @@ func checkCLIStop(p *core.Program, r *core.Report, c cliCommand, runCall *ast.Ca
 		}
 		return true
 	})
+	// the handler stays installed until the servers have stopped: signal.Stop / signal.Reset before AwaitStop has returned
+	// restores the default action, and a second SIGINT during the drain kills the process with requests in flight
+	if haveAwait {
+		ast.Inspect(c.Action.Node, func(n ast.Node) bool {
+			call, ok := n.(*ast.CallExpr)
+			if !ok {
+				return true
+			}
+			fn, _ := flow.Callee(info, call).(*types.Func)
+			if fn == nil {
+				return true
+			}
+			unreg := fn.FullName() == "os/signal.Stop" || fn.FullName() == "os/signal.Reset"
+			if !unreg && fn.Pkg() != nil && core.InRepo(fn.Pkg().Path()) {
+				// in a helper the action calls (awaitShutdown)
+				if sf := p.SSA.FuncValue(fn); sf != nil {
+					for _, b := range sf.Blocks {
+						for _, in := range b.Instrs {
+							if sc, ok := in.(*ssa.Call); ok && sc.Common().StaticCallee() != nil {
+								if nm := sc.Common().StaticCallee().String(); nm == "os/signal.Stop" || nm == "os/signal.Reset" {
+									unreg = true
+								}
+							}
+						}
+					}
+				}
+			}
+			if unreg {
+				if l, ok := g.Locate(call); ok && g.LocReaches(l, awaitLoc) {
+					problems = append(problems, "the SIGINT handler is unregistered at "+p.Pos(call.Pos())+" before AwaitStop has returned: a second SIGINT during the drain terminates the process and cuts the requests in flight")
+				}
+			}
+			return true
+		})
+	}
 	waiterOK := false
 	if sigCh == nil && haveReq {
 		// the wait may live in a helper (awaitShutdown(ctx)): a call, dominating RequestStop, of an in-repo function that
